@@ -34,13 +34,15 @@ CONSTANTS MaxN,      \* glyph counts 1..MaxN
           RuleTypes, \* subset of {1, 3, 4}
           LigLens,   \* numbers of components of a ligature rule, subset of 1..3
           Kinds,     \* subset of {"ttf", "cff", "cid"}
+          CmapFormats, \* cmap subtable formats the font may carry: subset of {"4", "12", "6", "0", "0mac"}
+          LigFirst,  \* -1, or: every ligature rule starts with this glyph and shares one subtable
           TextSel,   \* "none" | "A" | "mix": explicit glyph texts for MakeSimple (CFF kinds)
-          Flags,     \* TRUE: also vary the subtable formats (Gsub1_1/1_2, cmap 4/12)
+          Flags,     \* TRUE: also vary the single-substitution format (Gsub1_1 / Gsub1_2)
           Quiet      \* TRUE: no CASE output (exhaustive satisfiability runs)
 
-VARIABLES n, stage, given, pcls, todo, cm, rules, prt, kind, keep, d1, cm12, txt
+VARIABLES n, stage, given, pcls, todo, cm, rules, prt, kind, keep, d1, cmf, txt
 
-vars == <<n, stage, given, pcls, todo, cm, rules, prt, kind, keep, d1, cm12, txt>>
+vars == <<n, stage, given, pcls, todo, cm, rules, prt, kind, keep, d1, cmf, txt>>
 
 ---------------------------------------------------------------------------
 (* The pool of given names: chosen to collide with everything the          *)
@@ -91,7 +93,7 @@ Init == /\ n \in 1..MaxN
         /\ todo = CodeSeq /\ cm = <<>> /\ rules = <<>> /\ prt = 0
         /\ kind \in Kinds /\ keep = 0
         /\ d1 \in (IF Flags THEN BOOLEAN ELSE {FALSE})
-        /\ cm12 \in (IF Flags THEN BOOLEAN ELSE {FALSE})
+        /\ cmf \in CmapFormats
         /\ txt = <<>>
 
 AfterNames(g2) == IF Len(g2) < n THEN "names" ELSE IF todo = <<>> THEN "rules" ELSE "cmap"
@@ -105,11 +107,11 @@ NameClass == /\ stage = "names" /\ ~pcls
              /\ \/ AddName(<<>>)
                 \/ AddName(Own(Len(given)))
                 \/ pcls' = TRUE /\ UNCHANGED <<given, stage>>
-             /\ UNCHANGED <<n, todo, cm, rules, prt, kind, keep, d1, cm12, txt>>
+             /\ UNCHANGED <<n, todo, cm, rules, prt, kind, keep, d1, cmf, txt>>
 
 NamePool == /\ stage = "names" /\ pcls
             /\ \E x \in Pool : AddName(x)
-            /\ UNCHANGED <<n, todo, cm, rules, prt, kind, keep, d1, cm12, txt>>
+            /\ UNCHANGED <<n, todo, cm, rules, prt, kind, keep, d1, cmf, txt>>
 
 \* one code point at a time: left unmapped, or (second step, so that a random walk leaves
 \* half of the code points out) mapped to any glyph, glyph 0 included
@@ -120,18 +122,18 @@ CodeDone == /\ todo' = Tail(todo)
 MapClass == /\ stage = "cmap" /\ ~pcls
             /\ \/ CodeDone /\ UNCHANGED cm
                \/ pcls' = TRUE /\ UNCHANGED <<todo, stage, cm>>
-            /\ UNCHANGED <<n, given, rules, prt, kind, keep, d1, cm12, txt>>
+            /\ UNCHANGED <<n, given, rules, prt, kind, keep, d1, cmf, txt>>
 
 MapCode == /\ stage = "cmap" /\ pcls
            /\ \E g \in 0 .. n - 1 : cm' = Append(cm, <<Head(todo), g>>)
            /\ CodeDone
-           /\ UNCHANGED <<n, given, rules, prt, kind, keep, d1, cm12, txt>>
+           /\ UNCHANGED <<n, given, rules, prt, kind, keep, d1, cmf, txt>>
 
 RuleType == /\ stage = "rules" /\ prt = 0
             /\ \/ stage' = (IF HasText THEN "text" ELSE "shape") /\ UNCHANGED prt
                \/ /\ Len(rules) < MaxRules
                   /\ prt' \in RuleTypes /\ UNCHANGED stage
-            /\ UNCHANGED <<n, given, pcls, todo, cm, rules, kind, keep, d1, cm12, txt>>
+            /\ UNCHANGED <<n, given, pcls, todo, cm, rules, kind, keep, d1, cmf, txt>>
 
 LastSub == IF rules = <<>> THEN 0 ELSE rules[Len(rules)].sub
 
@@ -144,16 +146,21 @@ Joinable(t, src) ==
 LigOfLen(len) == CASE len = 1 -> {<<a>> : a \in 0..n-1}
                    [] len = 2 -> {<<a, b>> : a \in 0..n-1, b \in 0..n-1}
                    [] len = 3 -> {<<a, b, c>> : a \in 0..n-1, b \in 0..n-1, c \in {0, n-1}}
-LigSrcs == UNION {LigOfLen(len) : len \in LigLens}
+                   [] len = 4 -> {<<a, b, c, d>> : a \in 0..n-1, b \in 0..n-1, c \in {0, n-1}, d \in {0, n-1}}
+\* LigFirst >= 0: a ligature SET -- all ligatures hang off one first glyph in one subtable, in the
+\* order generated, so that nameable ligatures follow ligatures abandoned at any component
+FirstOK(src) == LigFirst < 0 \/ src[1] = (IF LigFirst < n THEN LigFirst ELSE 0)
+LigSrcs == {src \in UNION {LigOfLen(len) : len \in LigLens} : FirstOK(src)}
 
 RuleArgs == /\ stage = "rules" /\ prt # 0
             /\ \E src \in (IF prt = 4 THEN LigSrcs ELSE {<<a>> : a \in 0..n-1}),
                   dst \in 0..n-1 :
-                 \E join \in (IF Joinable(prt, src) THEN BOOLEAN ELSE {FALSE}) :
+                 \E join \in (IF ~Joinable(prt, src) THEN {FALSE}
+                              ELSE IF prt = 4 /\ LigFirst >= 0 THEN {TRUE} ELSE BOOLEAN) :
                     rules' = Append(rules, [t |-> prt, src |-> src, dst |-> dst,
                                             sub |-> IF join THEN LastSub ELSE LastSub + 1])
             /\ prt' = 0
-            /\ UNCHANGED <<n, stage, given, pcls, todo, cm, kind, keep, d1, cm12, txt>>
+            /\ UNCHANGED <<n, stage, given, pcls, todo, cm, kind, keep, d1, cmf, txt>>
 
 \* one glyph at a time: no text, or (second step) one of the texts; glyphs may share a text
 AddText(t) == /\ txt' = Append(txt, t)
@@ -163,18 +170,18 @@ AddText(t) == /\ txt' = Append(txt, t)
 TextClass == /\ stage = "text" /\ ~pcls
              /\ \/ AddText(<<>>)
                 \/ pcls' = TRUE /\ UNCHANGED <<txt, stage>>
-             /\ UNCHANGED <<n, given, todo, cm, rules, prt, kind, keep, d1, cm12>>
+             /\ UNCHANGED <<n, given, todo, cm, rules, prt, kind, keep, d1, cmf>>
 
 TextPick == /\ stage = "text" /\ pcls
             /\ \E t \in Texts : AddText(t)
-            /\ UNCHANGED <<n, given, todo, cm, rules, prt, kind, keep, d1, cm12>>
+            /\ UNCHANGED <<n, given, todo, cm, rules, prt, kind, keep, d1, cmf>>
 
 \* how many of the given names the font carries: all of them (CFF), none (CID-keyed), any
 \* prefix for TrueType (0 = no names, n = complete list, in between = a short names list)
 Shape == /\ stage = "shape"
          /\ keep' \in (IF kind = "ttf" THEN 0..n ELSE IF kind = "cff" THEN {n} ELSE {0})
          /\ stage' = "done"
-         /\ UNCHANGED <<n, given, pcls, todo, cm, rules, prt, kind, d1, cm12, txt>>
+         /\ UNCHANGED <<n, given, pcls, todo, cm, rules, prt, kind, d1, cmf, txt>>
 
 Next == NameClass \/ NamePool \/ MapClass \/ MapCode \/ RuleType \/ RuleArgs \/ TextClass \/ TextPick \/ Shape
 Spec == Init /\ [][Next]_vars
@@ -308,7 +315,7 @@ Refuses ==
 BugAccepted == done => LET P == Prob(Pad(Names, n)) IN Law(P, Ref(P, "X"))
 
 CaseRec == [n |-> n, kind |-> kind, names |-> Names, cmap |-> cm, rules |-> rules,
-            d1 |-> d1, cm12 |-> cm12, text |-> txt]
+            d1 |-> d1, cmf |-> cmf, text |-> txt]
 
 Emit == (done /\ ~Quiet) => PrintT(<<"CASE", ToJson(CaseRec)>>)
 =============================================================================
